@@ -401,6 +401,26 @@ theorem primary_keys_unique (db : Tables) (hdb : db.keysOk) (prog : List Op) (sc
   have hi := (KInv.init db prog hdb).exec sched
   exact ⟨appendResults_keys _ _ hi.txn, hi.committed⟩
 
+/-- **the tables after `disconnect()` depend only on what the run task did.**  Two schedules that agree on the run task's
+    choices (its awaited steps and where it was cancelled) - however the writer task's steps and write failures are
+    interleaved with them in either - leave exactly the same tables: same rows, same ids, same references, in every table.
+    (This is what lets the correspondence run compare the real tables with the model under an arbitrary schedule.) -/
+theorem tables_independent_of_writer_schedule (db : Tables) (hdb : db.fkOk) (prog : List Op) (s1 s2 : List TChoice)
+    (h : s1.filter TChoice.isRunTask = s2.filter TChoice.isRunTask) :
+    afterDisconnectT (texec (TSys.init db prog) s1) = afterDisconnectT (texec (TSys.init db prog) s2) := by
+  have hi := TInv.init db prog hdb
+  have e1 := (TEq.refl (TSys.init db prog)).exec hi s1
+  have e2 := (TEq.refl (TSys.init db prog)).exec hi s2
+  rw [h] at e1
+  exact (e1.trans e2.symm).afterDisconnect
+
+/-- in particular: the scan_result table after `disconnect()` is what it would be had the writer never run before
+    (every accepted row appended in call order with consecutive ids), whatever it actually did and however often it failed -/
+theorem scan_results_as_if_written_at_disconnect (db : Tables) (hdb : db.fkOk) (prog : List Op) (sched : List TChoice) :
+    afterDisconnectT (texec (TSys.init db prog) sched) =
+      afterDisconnectT (texec (TSys.init db prog) (sched.filter TChoice.isRunTask)) :=
+  tables_independent_of_writer_schedule db hdb prog sched _ (by simp [List.filter_filter])
+
 /-- a new id is larger than every id already in the table (sqlite's rowid rule), so it never collides with a row of an
     earlier run -/
 theorem new_id_is_fresh (ids : List Nat) : nextId ids ∉ ids ∧ ∀ x ∈ ids, x < nextId ids :=
